@@ -111,6 +111,9 @@ func genOp(r *simrt.Rand, u int) Op {
 // Generate implements core.Harness.
 func (H) Generate(r *simrt.Rand, tier string) any {
 	s := &Scenario{U: 1 + r.Intn(4)}
+	if r.Intn(8) == 0 {
+		s.U = 5 + r.Intn(8)
+	}
 	switch r.Intn(3) {
 	case 0: // a promoted read map with a deleted entry that the next new key expunges
 		s.Prefix = append(s.Prefix, Op{K: "add", V: 0}, Op{K: "add", V: 1 % s.U}, Op{K: "has", V: 0}, Op{K: "has", V: 0}, Op{K: "has", V: 0}, Op{K: "remove", V: 0})
@@ -118,7 +121,7 @@ func (H) Generate(r *simrt.Rand, tier string) any {
 			s.Prefix = append(s.Prefix, Op{K: "add", V: 2 % s.U})
 		}
 	case 1:
-		for i := 0; i < r.Intn(10); i++ {
+		for i := 0; i < r.Intn(10)+s.U; i++ {
 			s.Prefix = append(s.Prefix, genOp(r, s.U))
 		}
 	}
@@ -402,6 +405,12 @@ func check(sc *Scenario, hist [][]Rec, st *core.Stats) *core.Violation {
 				}
 				if c == len(hist)-1 {
 					finalLen = r.N
+				}
+				if sc.U > 5 {
+					// the subset search is exponential in the universe: a concurrent Len
+					// over a large universe is only range-checked
+					st.Add("oracle.len_range_checked_only", 1)
+					continue
 				}
 				all := make([]int, sc.U)
 				for i := range all {
